@@ -28,8 +28,11 @@ ASSUMPTIONS = [
     "no request hook intercepts the connection (as in the property text); EventLogger/TraceStream calls are not modelled",
 ]
 TRUSTED = ["modelled rather than verified: core/server/copy.go, the hook-less path of handleTCPRequest (server.go:271-343), client.go TCP()/tcpConn.Read "
-           "(hand transcription in coq/model/C06_Relay.v); level (a) transcribes the three teardown lines of server.go:338-342 in the harness, "
-           "level (b) runs the real ones"]
+           "(hand transcription in coq/model/C06_Relay.v); level (a) transcribes the three teardown lines of server.go:338-342 in the harness; "
+           "level (b) runs the real handleTCPRequest/client.TCP end to end but is judged by the harness verdict only (its runs are not replayed "
+           "against the LTS)",
+           "level (a) sources/sinks/logger are in-memory fakes inside a testing/synctest bubble; written chunks above 2 KiB are compared with the "
+           "model through the (offset, length) descriptor the harness verified byte by byte, smaller ones through a 32-bit digest"]
 PER_SHARD = 40
 EXTRA_TARGETS = ["corr/C06_Corr.vo"]
 FP_VETO = "veto-swallowed-other-direction-returned-first"
@@ -142,7 +145,7 @@ def e2e_cases(rng, tier):
 
 
 def gen(rng, tier):
-    scale = 1 if tier == "quick" else 25
+    scale = 1 if tier == "quick" else 10
     cases = fixed_cases() + e2e_cases(rng, tier)
     for _ in range(260 * scale):
         cases.append(gen_relay(rng, False))
